@@ -66,10 +66,20 @@ def check(chk):
                   'the chunks of one message are handed to the event loop separately (%s%s): another thread\'s chunks can be queued in between'
                   % (src(h)[:70], ', inside a loop' if in_loop(h, push) else ''))
     # every path through push performs exactly one hand-off: the two calls sit in the two arms of one if
-    ifs = [n for n in push.body if isinstance(n, ast.If) and any(h in list(ast.walk(n)) for h in handoffs)]
-    good = len(ifs) == 1 and len(handoffs) == 2 and any(handoffs[0] in list(ast.walk(s)) for s in ifs[0].body) != any(handoffs[1] in list(ast.walk(s)) for s in ifs[0].body)
-    chk.judge(good, 'C11.atomic', push, 'push: exactly one hand-off per call (loop thread vs other thread)', 'a push may hand off twice or not at all')
     gp = CFG(push)
+
+    def _count(node, c):
+        if node.ast is not None and node.kind in ('stmt', 'return') and any(any(h is x for x in ast.walk(node.ast)) for h in handoffs):
+            return min(c + 1, 2)
+        return c
+    per_path = set(c for _f, c in Flow(gp, 0, _count).at(gp.exit))
+    chk.judge(per_path == set([1]) and len(handoffs) == 2, 'C11.atomic', push, 'push: exactly one hand-off of the chunk list on every path (loop thread vs other thread)',
+              'a push hands off %s times on some path: a message that bypasses _push_msg (or is handed off twice) is not ordered with the other pushes' % sorted(per_path))
+    # the write queue has one producer: every put is in _push_msg, behind the queue lock
+    puts_all = [(q, n) for q, f in am.functions() for n in body_walk(f) if isinstance(n, ast.Call) and src(n.func).startswith('self._write_queue.put')]
+    stray = [q for q, n in puts_all if q != 'AsyncioConnection._push_msg']
+    chk.judge(bool(puts_all) and not stray, 'C11.atomic', push, 'chunks are put on the write queue only by _push_msg',
+              'the write queue is also filled from %s, outside the queue lock and not ordered with the tasks already scheduled: a small message can overtake the chunks of an earlier one' % stray)
     flp = Flow(gp, 0, lambda n, c: c)
     okt = len(handoffs) == 2
     for h in handoffs:
@@ -132,6 +142,20 @@ def check(chk):
                 chk.judge(bool(prim), 'C11.complete', f, '%s writes through %s' % (q, sorted(set(prim))), 'no socket write found in %s' % q, nontrivial=False)
     if nsend < 2:
         raise AnalysisError('partial send sites: expected the asyncore and libev ones, found %d' % nsend)
+
+    # the bytes of one message are assembled in storage no other sender can touch
+    chk.rule('C11.private', 'send_msg assembles the outgoing bytes (v5 segments) in a buffer created in that call, never in state shared by the senders of a connection')
+    cm = chk.repo.mod('cassandra/connection.py')
+    sm = cm.func('Connection.send_msg')
+    enc = [n for n in body_walk(sm) if isinstance(n, ast.Call) and isinstance(n.func, ast.Attribute) and n.func.attr == 'encode' and src(n.func.value) == 'self._segment_codec']
+    if len(enc) != 1 or not enc[0].args:
+        raise AnalysisError('send_msg: segment encoding call not found')
+    buf = enc[0].args[0]
+    defs = [a for a in body_walk(sm) if isinstance(a, ast.Assign) and isinstance(buf, ast.Name) and any(isinstance(t, ast.Name) and t.id == buf.id for t in a.targets)]
+    fresh = isinstance(buf, ast.Name) and bool(defs) and all(isinstance(d.value, ast.Call) and src(d.value.func) in ('io.BytesIO', 'BytesIO') and not d.value.args for d in defs)
+    chk.judge(fresh, 'C11.private', enc[0], 'send_msg: segments are encoded into a BytesIO created by this call',
+              'the segment buffer %s is not created by the call that fills it (%s): two threads in send_msg write into the same buffer between encode and getvalue, '
+              'so one message is sent twice and another is lost' % (src(buf), [src(d.value) for d in defs] or 'not a local'))
 
     # twisted
     tm = chk.repo.mod(TWISTED)
